@@ -641,6 +641,13 @@ func c07Script(rng *rand.Rand, wide bool) (*c07Result, error) {
 	} else if !c07WaitAll(r.finished()) {
 		res.stuck = true
 	}
+	return r.finish(res, closing), nil
+}
+
+// finish takes the snapshot of who has returned, releases the rest by closing the transport
+// and renders history and outcomes canonically.
+func (r *c07Run) finish(res *c07Result, closing bool) *c07Result {
+	s := r.s
 	// snapshot
 	r.mu.Lock()
 	events := append([]c07Event{}, r.events...)
@@ -749,7 +756,87 @@ func c07Script(rng *rand.Rand, wide bool) (*c07Result, error) {
 	res.key = strings.Join(evDesc, " ")
 	res.impl = r.impl
 	res.closing = closing
-	return res, nil
+	return res
+}
+
+// c07SharedScript: outside C07's hypothesis. Two publishes of the same QoS with the same
+// caller-chosen identifier, the second started after the first has been written, plus a
+// bystander; then the acknowledgement chain for that identifier, twice. The model says the
+// second waiter replaces the first: the second call completes, the first never returns.
+func c07SharedScript(rng *rand.Rand) (*c07Result, error) {
+	r := &c07Run{byFilter: map[string]*c07Caller{}, notes: make(chan c07Note, 256), marker: make(chan int, 16)}
+	s, err := newSession(false, func(_ *session, pkt []byte) { r.onPkt(pkt) })
+	if err != nil {
+		return nil, err
+	}
+	r.s = s
+	s.cli.Handle(mqtt.HandlerFunc(func(m *mqtt.Message) {
+		if m.Topic == "\x01mark" && len(m.Payload) == 2 {
+			r.marker <- int(m.Payload[0])<<8 | int(m.Payload[1])
+		}
+	}))
+	kind := c07Pub1 + rng.Intn(2)
+	id := uint16(1 + rng.Intn(65535))
+	a := &c07Caller{idx: 0, kind: kind, id: id}
+	b := &c07Caller{idx: 1, kind: kind}
+	by := &c07Caller{idx: 2, kind: c07Unsub, filters: []string{"u2"}}
+	r.byFilter["u2"] = by
+	r.callers = []*c07Caller{a, b, by}
+	res := &c07Result{nCallers: 3, kinds: map[string]int{}}
+	for _, c := range []*c07Caller{a, by, b} {
+		if c == b {
+			b.id = id
+		}
+		r.launch(c)
+		if !r.waitNote("start", -1) {
+			r.impl = append(r.impl, "stuck: a request was not written within 5 s")
+			return r.finish(res, false), nil
+		}
+	}
+	var chain []c07Ack
+	if kind == c07Pub1 {
+		chain = []c07Ack{{kind: 0, id: id}, {kind: 0, id: id}}
+	} else {
+		chain = []c07Ack{{kind: 1, id: id}, {kind: 2, id: id}, {kind: 1, id: id}, {kind: 2, id: id}}
+		if rng.Intn(2) == 0 {
+			chain = []c07Ack{{kind: 1, id: id}, {kind: 1, id: id}, {kind: 2, id: id}, {kind: 2, id: id}}
+		}
+	}
+	if rng.Intn(2) == 0 {
+		chain = append(chain, c07Ack{kind: 4, id: by.id})
+	}
+	seq := 0
+	resumed := false
+	for _, ack := range chain {
+		r.mu.Lock()
+		r.events = append(r.events, c07Event{typ: "recv", ack: ack, why: "shared-id"})
+		r.mu.Unlock()
+		seq++
+		s.conn.send(ack.bytes())
+		s.conn.send(encPublish(inMsg{Topic: []byte("\x01mark"), QoS: 0, Payload: []byte{byte(seq >> 8), byte(seq)}}))
+		select {
+		case <-r.marker:
+		case <-time.After(c07Wait):
+			r.impl = append(r.impl, "stuck: the reader did not process an acknowledgement and its marker within 5 s")
+			return r.finish(res, false), nil
+		}
+		if ack.kind == 1 && !resumed {
+			// the first PUBREC goes to the second caller's waiter
+			resumed = true
+			if !r.waitNote("resume", -1) {
+				res.stuck = true
+			}
+			b.phase = 3
+		}
+		if ack.kind == 4 {
+			by.phase = 4
+		}
+	}
+	b.phase = 4
+	if !c07WaitAll(r.finished()) {
+		res.stuck = true
+	}
+	return r.finish(res, false), nil
 }
 
 func runC07(cfg *runCfg) error {
@@ -806,10 +893,39 @@ func runC07(cfg *runCfg) error {
 			}
 		}
 	}
-	cf.def("scripts", "list c07_case", cList(cases))
+	nShared := 12
+	if cfg.tier != "quick" {
+		nShared = 60
+	}
+	var shared []string
+	for i := 0; i < nShared && stuckScripts < 3; i++ {
+		res, err := c07SharedScript(rng)
+		if err != nil {
+			return err
+		}
+		shared = append(shared, res.coq)
+		m.Families["shared"] = append(m.Families["shared"], res.desc)
+		if res.stuck || len(res.impl) > 0 {
+			stuckScripts++
+		}
+	}
+	// large literals overflow coqc's stack: chunks of 2,000 scripts, concatenated inside Coq
+	var chunkNames []string
+	for k := 0; k*2000 < len(cases) || k == 0; k++ {
+		hi := (k + 1) * 2000
+		if hi > len(cases) {
+			hi = len(cases)
+		}
+		name := fmt.Sprintf("scripts_%d", k)
+		cf.def(name, "list c07_case", cList(cases[k*2000:hi]))
+		chunkNames = append(chunkNames, name)
+	}
+	cf.def("scripts", "list c07_case", strings.Join(chunkNames, " ++ "))
+	cf.def("shared", "list c07_case", cList(shared))
 	cf.result("V_scripts", "c07_violations scripts")
 	cf.result("M_scripts", "c07_mismatches scripts")
-	m.Evaluations = len(cases)
+	cf.result("M_shared", "c07_shared_mismatches shared")
+	m.Evaluations = len(cases) + len(shared)
 	m.DistinctNontrivial = nontrivial
 	m.Rule = "one evaluation = one script on a real BaseClient: 1-8 concurrent blocking calls (Publish QoS1/QoS2, Subscribe 1-4 filters, Unsubscribe; publish identifiers often equal to identifiers other kinds of requests hold), possibly started in two waves, answered by a generated acknowledgement sequence (genuine in random order, wrong kind with an identifier in use, unused identifier, duplicate, unsolicited, SUBACK with wrong code count / 0x80), each acknowledgement confirmed as processed by a QoS0 marker; non-trivial = distinct history with >=2 callers, >=1 hostile acknowledgement and >=1 completed call"
 	keys := make([]string, 0, len(kinds))
@@ -824,6 +940,7 @@ func runC07(cfg *runCfg) error {
 	m.Distribution["calls_completed"] = completions
 	m.Distribution["calls_left_blocked_on_purpose_or_not"] = blocked
 	m.Distribution["distinct_histories"] = len(distinct)
+	m.Distribution["shared_identifier_scripts_outside_hypothesis"] = len(shared)
 	if err := cf.write(cfg.outDir); err != nil {
 		return err
 	}
